@@ -420,7 +420,8 @@ def parcor_stable(filt):
 
   """
   try:
-    return all(abs(k) < 1 for k in parcor(ZFilter(filt.denpoly)))
+    den = filt.denpoly # Reflection coefficients are defined for monic filters
+    return all(abs(k) < 1 for k in parcor(ZFilter(den, den[0])))
   except ParCorError:
     return False
 
